@@ -455,17 +455,14 @@ impl Simulator for WorldHandle {
         with(|w| match domain {
             LayoutDomain::Runtime => {
                 w.c.layout_seeds_rt += 1;
-                w.cfg
-                    .layout_seed
-                    .wrapping_mul(0x9E37_79B9_7F4A_7C15)
-                    .wrapping_add(w.c.layout_seeds_rt)
+                // one key per scenario: the order in which a container enumerates its content
+                // must not depend on how many containers were created before it (a run cut short
+                // by a violation creates fewer), or reruns could not be compared with the reference
+                w.cfg.layout_seed.wrapping_mul(0x9E37_79B9_7F4A_7C15)
             }
             LayoutDomain::Compile => {
                 w.c.layout_seeds_ct += 1;
-                w.cfg
-                    .compile_layout_seed
-                    .wrapping_mul(0xC2B2_AE3D_27D4_EB4F)
-                    .wrapping_add(w.c.layout_seeds_ct)
+                w.cfg.compile_layout_seed.wrapping_mul(0xC2B2_AE3D_27D4_EB4F)
             }
         })
     }
@@ -771,7 +768,7 @@ impl TimeProvider for SimClock {
             if let Some((_, v)) = w.cfg.unix_plan.iter().find(|(i, _)| *i == idx) {
                 return v.get();
             }
-            w.cfg.unix_base + w.cfg.unix_step * idx as f64 + (w.mono_ns as f64) * 1e-9
+            w.cfg.unix_base + w.cfg.unix_step * idx as f64
         })
     }
 }
